@@ -472,6 +472,11 @@ def partitioned_fread(A, sumv, bufsz):
             return None
         rem = st.comps.get(('frem', root), 'unknown')
         cases = []
+        if rem == 'err':
+            cases.append(('read error (persists)', C(0), 'err', 0))
+        if rem == 'unknown':
+            # the read fails (EISDIR, EIO ...): nothing arrives and the end-of-file indicator stays clear
+            cases.append(('read error', C(0), 'err', 0))
         if rem in ('unknown', 'zero'):
             cases.append(('r=0', C(0), 'zero', 1))
         if rem in ('unknown', 'pos'):
@@ -502,6 +507,11 @@ def partitioned_fread(A, sumv, bufsz):
 def fgetc_by_remaining(I, st, fr, n, f, root):
     rem = st.comps.get(('frem', root), 'unknown')
     out = []
+    if rem == 'err':
+        s = st.copy()
+        s.comps[('feof', root)] = C(0)
+        s.note((nloc(n), 'fgetc=EOF (read error)'))
+        return [(s, C(-1))]
     if rem in ('unknown', 'zero'):
         s = st.copy()
         s.comps[('feof', root)] = C(1)
@@ -700,6 +710,17 @@ class PipelineAnalysis:
         for I_ in [WI] + [self.io_runs[p][2] for p in (True, False)]:
             for what, where in I_.unmodelled:
                 rec.broke('unmodelled construct in pipeline analysis: %s at %s' % (what, where))
+        # R04.f: no loop in either role has a head state that recurs with every decision closed (read errors included:
+        # fread may return 0 with the end-of-file indicator clear, and keeps doing so)
+        div = []
+        for role, I_ in [('worker', WI)] + [('I/O (%s)' % ('encrypt' if p else 'decrypt'), self.io_runs[p][2]) for p in (True, False)]:
+            for where_, path in I_.diverged:
+                div.append((role, where_, path))
+        for role, where_, path in sorted(set(div)):
+            rec.ob('R04.f', 'R04.f@%s::loop-cannot-spin::%s' % (A.Bq, where_.split(':')[0]), False, where_,
+                   '%s role: the loop at %s returns to the same state with no decision left open (it never ends on this path)' % (role, where_), path=list(path))
+        rec.ob('R04.f', 'R04.f@%s::no-loop-spins' % A.Gq, not div, A.G['file'],
+               'no loop of the worker or I/O role (callee loops included) has a recurring head state with all decisions closed; input classes include a failing read: %s' % ('yes' if not div else 'NO'))
 
 
 def _check_cursor(self):
